@@ -110,10 +110,13 @@ Qed.
 (* ---------- vectorised path ---------- *)
 
 Lemma col_violation_eq k s : col_violation k s = violation k s.
-Proof. unfold col_violation, violation, activity. destruct (c_sense k); try reflexivity. ring. Qed.
+Proof.
+  unfold col_violation, violation, activity, gen_vec_violation_eq, gen_vec_violation_ge, gen_vec_violation_le.
+  destruct (c_sense k); try reflexivity. ring.
+Qed.
 
 Lemma sat_col_eq atol rtol k s :
-  Qc_leb (col_violation k s) (atol + rtol * qabs (c_rhs k)) = satisfied atol rtol k s.
+  Qc_leb (col_violation k s) (gen_vec_tolerance atol rtol (c_rhs k)) = satisfied atol rtol k s.
 Proof. rewrite col_violation_eq. reflexivity. Qed.
 
 Lemma map_combine3 {A B C D} (f : A -> B) (h : A -> C) (g : B * (C * A) -> D) (l : list A) :
@@ -133,6 +136,7 @@ Lemma add_penalty_map atol rtol k samples (f : sample -> Qc) :
 Proof.
   unfold add_penalty, soft_penalty, column. destruct (c_soft k) as [[w pen]|].
   - rewrite map_combine3. apply map_ext. intros s. rewrite sat_col_eq, !col_violation_eq.
+    unfold gen_vec_penalty_linear, gen_vec_penalty_quadratic.
     destruct (satisfied atol rtol k s); destruct pen; ring.
   - apply map_ext. intros s. ring.
 Qed.
@@ -182,7 +186,7 @@ Qed.
 
 Lemma feas_marks atol rtol samples s cons marks :
   Forall2 (mark_ok atol rtol samples) cons marks -> In s samples ->
-  forallb (fun km => snd km || Qc_leb (col_violation (fst km) s) (atol + rtol * qabs (c_rhs (fst km))))
+  forallb (fun km => snd km || Qc_leb (col_violation (fst km) s) (gen_vec_tolerance atol rtol (c_rhs (fst km))))
           (combine cons marks)
   = forallb (fun k => satisfied atol rtol k s) (filter is_hard cons).
 Proof.
@@ -195,7 +199,7 @@ Qed.
 
 Lemma feas_unmarked atol rtol samples s cons marks :
   Forall2 (mark_ok atol rtol samples) cons marks -> existsb (fun b => b) marks = false -> In s samples ->
-  forallb (fun b => b) (map (fun k => Qc_leb (col_violation k s) (atol + rtol * qabs (c_rhs k))) cons)
+  forallb (fun b => b) (map (fun k => Qc_leb (col_violation k s) (gen_vec_tolerance atol rtol (c_rhs k))) cons)
   = forallb (fun k => satisfied atol rtol k s) (filter is_hard cons).
 Proof.
   intros HF He Hs. induction HF as [|k mark cons marks Hk HF IH]; cbn [map forallb filter]; [reflexivity|].
